@@ -412,7 +412,7 @@ func (d *driver) runShard(shard, n int) {
 func (d *driver) childEnv(base string) []string {
 	env := []string{"GOMAXPROCS=2", "GOTRACEBACK=all"}
 	if d.mon.Race {
-		env = []string{"GOTRACEBACK=all", "GORACE=halt_on_error=0 history_size=3 log_path=" + base + ".race"}
+		env = []string{"GOTRACEBACK=all", "GORACE=halt_on_error=0 exitcode=0 history_size=3 log_path=" + base + ".race"}
 	}
 	return env
 }
@@ -738,6 +738,11 @@ func (d *driver) collectRaceReports() {
 			}
 			d.merged.Counts["race_reports"]++
 			sig := raceSignature(blk)
+			if !strings.Contains(blk, libPath) {
+				// a race entirely inside the harness: the monitor is broken, not the library
+				d.merged.HarnessBugs = append(d.merged.HarnessBugs, "data race inside the harness:\n"+clip(blk, 3000))
+				continue
+			}
 			v := &Violation{Property: d.mon.ID, Sig: d.mon.ID + ":race:" + sig, Case: NewCase("race-report", "log", filepath.Base(f)),
 				Observed: "WARNING: DATA RACE", Expected: "no data race", Detail: clip(blk, 6000)}
 			d.merged.SigCounts[v.Sig]++
